@@ -59,6 +59,10 @@ type handler1 struct {
 	// Set (atomically) once the topicID sequence has wrapped around. Every ID
 	// the sequence returns from then on was already handed out in this session.
 	topicIDsExhausted uint32
+	// Serializes sending to the MQTT-SN client with the changes of the
+	// asleep/awake state and guards pktBuffer (packets are sent from both the
+	// MQTT-SN and the MQTT receive loops).
+	snSendMutex sync.Mutex
 }
 
 const (
@@ -555,10 +559,17 @@ func (h *handler1) handleConnect(ctx context.Context, snConnect *snPkts1.Connect
 		return h.snSend(reply)
 	}
 
-	if h.state.Get() == util.StateAwake {
+	// CONNECT in the asleep or awake state only signalizes that the client
+	// wants to be active again, see doc/specification-interpretation.md.
+	if state := h.state.Get(); state == util.StateAwake || state == util.StateAsleep {
+		h.snSendMutex.Lock()
+		defer h.snSendMutex.Unlock()
 		h.setState(util.StateActive)
 		reply := snPkts1.NewConnack(snPkts1.RC_ACCEPTED)
-		return h.snSend(reply)
+		if err := h.snSendLocked(reply); err != nil {
+			return err
+		}
+		return h.snFlushBufferLocked()
 	}
 
 	// The MQTT-SN specification does not explicitly forbid zero keepalive
@@ -824,15 +835,18 @@ func (h *handler1) handleMqttSn(ctx context.Context, pkt snPkts.Packet) error {
 	// Client PING transaction (going AWAKE or just a keepalive).
 	case *snPkts1.Pingreq:
 		if h.state.Get() == util.StateAsleep {
+			h.snSendMutex.Lock()
+			defer h.snSendMutex.Unlock()
 			// Must be set before snSend otherwise the packets will be queued...
 			h.setState(util.StateAwake)
-			for _, m2 := range h.pktBuffer {
-				if err := h.snSend(m2); err != nil {
-					return err
-				}
+			if err := h.snFlushBufferLocked(); err != nil {
+				return err
 			}
-			h.pktBuffer = nil
-			return h.snSend(snPkts1.NewPingresp())
+			err := h.snSendLocked(snPkts1.NewPingresp())
+			// The client goes back to sleep as soon as it receives PINGRESP.
+			// See MQTT-SN specification v. 1.2, chapter 6.14.
+			h.setState(util.StateAsleep)
+			return err
 		} else {
 			mqPkt := mqPkts.NewControlPacket(mqPkts.Pingreq).(*mqPkts.PingreqPacket)
 			return h.mqttSend(mqPkt)
@@ -856,12 +870,15 @@ func (h *handler1) handleMqttSn(ctx context.Context, pkt snPkts.Packet) error {
 				cancelPinger := h.startSleepPinger(ctx)
 				time.AfterFunc(time.Duration(snPkt.Duration)*time.Second, cancelPinger)
 			}
-			h.pktBuffer = nil
+			h.snSendMutex.Lock()
+			defer h.snSendMutex.Unlock()
+			// The reply must be sent (not queued) even if the client is
+			// asleep already and only announces a new sleep duration.
 			m2 := snPkts1.NewDisconnect(0)
-			if err := h.snSend(m2); err != nil {
+			if err := h.snWrite(m2); err != nil {
 				return err
 			}
-			// Must be set after snSend otherwise the packet will be queued...
+			// Must be set after sending otherwise the packet would be queued...
 			h.setState(util.StateAsleep)
 			return nil
 		}
@@ -932,12 +949,36 @@ func (h *handler1) startSleepPinger(ctx context.Context) context.CancelFunc {
 }
 
 func (h *handler1) snSend(pkt snPkts.Packet) error {
+	h.snSendMutex.Lock()
+	defer h.snSendMutex.Unlock()
+	return h.snSendLocked(pkt)
+}
+
+// Sends all packets queued for a sleeping client.
+// You must acquire h.snSendMutex before calling this function!
+func (h *handler1) snFlushBufferLocked() error {
+	buffer := h.pktBuffer
+	h.pktBuffer = nil
+	for _, pkt := range buffer {
+		if err := h.snWrite(pkt); err != nil {
+			return err
+		}
+	}
+	return nil
+}
+
+// You must acquire h.snSendMutex before calling this function!
+func (h *handler1) snSendLocked(pkt snPkts.Packet) error {
 	if h.state.Get() == util.StateAsleep {
 		h.log.Debug("Queued %v", pkt)
 		h.pktBuffer = append(h.pktBuffer, pkt)
 		// TODO: Potentional serialization errors will be delayed!
 		return nil
 	}
+	return h.snWrite(pkt)
+}
+
+func (h *handler1) snWrite(pkt snPkts.Packet) error {
 	h.log.Debug("<- %v", pkt)
 	buf, err := pkt.Pack()
 	if err != nil {
